@@ -869,6 +869,9 @@ func dDynCallees(p *Prog, ci ssa.CallInstruction) ([]*ssa.Function, bool) {
 // function-typed parameters.
 func dReachable(p *Prog, roots ...*ssa.Function) map[*ssa.Function]bool {
 	seen := p.reachableFuncs(roots...)
+	if !fullSSABodies {
+		return seen // reachableFuncs is already closed under these calls
+	}
 	for changed := true; changed; {
 		changed = false
 		for _, fn := range sortedFuncs(seen) {
